@@ -389,6 +389,9 @@ def offsetFull (s : BL) (k : Int) : Res BL :=
   | .crash => .crash
   | .ub => .ub
 
+/-- `copy()`: `__copy_create__` builds `BondList(self._atom_count)`, whose argument is a `uint32`. -/
+def copyFull (s : BL) : Res BL := if s.n ≥ 4294967296 then .err .overflowError else .ok s
+
 /-! ## Views -/
 
 /-- `(neighbour, type)` of every bond touching atom `k`, in array order (a self bond once). -/
